@@ -118,6 +118,7 @@ type Exec struct {
 	ParseFloatStub func(ex *Exec, fr *frame, s Str, bits int) Value
 	CoverDone      func(id string) bool
 	Params         map[string]int
+	AssertFilter   func(id string) bool
 	initPhase      bool
 	InitSkipped    []string
 }
@@ -172,7 +173,7 @@ func (ex *Exec) Close() {
 	}
 }
 
-func (ex *Exec) Ctx() *sym.Ctx            { return ex.c }
+func (ex *Exec) Ctx() *sym.Ctx             { return ex.c }
 func (ex *Exec) SolverStats() solver.Stats { return ex.z3.Stats }
 
 // ---------- initialisation ----------
